@@ -6,23 +6,37 @@ import (
 	"github.com/jsightapi/jsight-schema-core/notations/jschema"
 )
 
+func try(root, typ string) {
+	s := jschema.New("root", root)
+	if typ != "" {
+		if err := s.AddType("@t", jschema.New("@t", typ)); err != nil {
+			fmt.Println("addtype", err)
+		}
+	}
+	err := s.Check()
+	e := "nil"
+	if err != nil {
+		e = err.Error()
+		if len(e) > 90 {
+			e = e[:90]
+		}
+	}
+	fmt.Printf("%-40q TYPE %-40q -> %s\n", root, typ, e)
+}
+
 func main() {
-	root := "{\n  \"p0\": @t1, // {optional: true}\n  \"p1\": @t1 // {nullable: true}\n}"
-	t1 := "{\n  \"p0\": [@main],\n  \"p1\": @main | @t2,\n  \"p2\": 1\n}"
-	t2 := "{}"
-	s := jschema.New("@main", root)
-	fmt.Println(s.AddType("@t1", jschema.New("@t1", t1)))
-	fmt.Println(s.AddType("@t2", jschema.New("@t2", t2)))
-	fmt.Println(s.AddType("@main", s))
-	fmt.Println("check:", s.Check())
-	ex, err := s.Example()
-	fmt.Println("example:", string(ex), err)
-	// 3-cycle
-	s = jschema.New("@main", "{\n \"a\": @t1\n}")
-	s.AddType("@t1", jschema.New("@t1", "{\n \"a\": @t2\n}"))
-	s.AddType("@t2", jschema.New("@t2", "{\n \"a\": @main\n}"))
-	s.AddType("@main", s)
-	fmt.Println("3-cycle check:", s.Check())
-	ex, err = s.Example()
-	fmt.Println("example:", string(ex), err)
+	try(`1 // {type: "@t"}`, `1.5 // {enum: [1.5, 1]}`)
+	try(`1 // {type: "@t"}`, `1 // {enum: [1.5, 1]}`)
+	try(`1.5 // {type: "@t"}`, `1 // {enum: [1.5, 1]}`)
+	try(`"a" // {type: "@t"}`, `2 // {enum: [2, "a"]}`)
+	try(`2 // {type: "@t"}`, `"a" // {enum: [2, "a"]}`)
+	try(`null // {type: "@t"}`, `"a" // {enum: [null, "a"]}`)
+	try(`null // {type: "@t"}`, `5 // {type: "integer", nullable: true}`)
+	try(`null // {type: "@t"}`, `5 // {nullable: true}`)
+	try(`{"k": null // {type: "@t"}
+}`, `5 // {nullable: true}`)
+	try(`{"k": @t
+}`, `5 // {nullable: true}`)
+	try(`null // {type: "integer", nullable: true}`, ``)
+	try(`@t`, `1.5 // {enum: [1.5, 1]}`)
 }
